@@ -131,12 +131,14 @@ def TameAction (dflt : Option String) : Action → Prop
 
 /-- Nothing is pending in the font's bookkeeping beyond what `Synced` speaks about: the layer set has
 recorded no deletion and no default-layer change that a save would still have to replay over the
-UFO; the layer dictionary holds no layer outside the layer order; no image / data name is listed
+UFO; the layer dictionary holds no layer outside the layer order; a layer's table of pending deletions
+lists a name once; no image / data name is listed
 and scheduled for deletion at the same time; glyph, image and data names are unique on disk.  Holds for a font just opened and is kept by every
 quiet operation (`tidy_step`). -/
 structure Tidy (s : State) : Prop where
   history : ∀ a, a ∈ s.font.history → TameAction s.font.default a
   layersInOrder : ∀ ln, AL.contains s.font.layers ln = true → ln ∈ s.font.order
+  schedNodup : ∀ ln l, AL.get? s.font.layers ln = some l → (AL.keys l.sched).Nodup
   imagesDisjoint : ∀ n, AL.contains s.font.images.entries n = true → AL.contains s.font.images.sched n = false
   dataDisjoint : ∀ n, AL.contains s.font.data.entries n = true → AL.contains s.font.data.sched n = false
   disk : DiskOk s.disk
